@@ -84,6 +84,9 @@ class Gen:
             fs = sc.of_type("fn1")
             f = r.choice(fs) if fs else "(q => q * 2)"
             return "(%s into %s)" % (self.num(sc, d - 1), f)
+        if r.chance(1, 2):
+            self.note("aggregate")
+            return "%s(%s)" % (r.choice(["len", "sum", "min", "max", "avg", "median", "prod"]), self.numlist(sc, d - 1))
         self.note("coalesce")
         return "(%s ?? %s)" % (r.choice(["null", self.num(sc, d - 1)]), self.num(sc, d - 1))
 
@@ -151,6 +154,13 @@ class Gen:
         if k == 7:
             self.note("spread")
             return "[...%s, %s]" % (self.numlist(sc, d - 1), self.num(sc, d - 1))
+        if r.chance(1, 2):
+            self.note("listfn")
+            k2 = r.below(8)
+            l1 = self.numlist(sc, d - 1)
+            return ["sort(%s)" % l1, "reverse(%s)" % l1, "unique(%s)" % l1, "concat(%s, %s)" % (l1, self.numlist(sc, 0)),
+                    "range(%s)" % r.choice(["3", "1, 4", "0"]), "flatten([%s, [7]])" % l1,
+                    "sort_by(%s, %s)" % (l1, self.fn1(sc, 0)), "slice(%s, 0, 1)" % l1][k2]
         return "[%s, %s]" % (self.num(sc, d - 1), self.num(sc, d - 1))
 
     def record(self, sc, d):
@@ -230,7 +240,7 @@ class Gen:
     def statement(self, sc):
         r = self.r
         d = self.max_depth
-        k = r.below(25)
+        k = r.below(28)
         if k < 5:
             nm = self.fresh(sc)
             sc.vars[nm] = "num"
@@ -315,6 +325,33 @@ class Gen:
             sc.vars[nm] = "fn1"
             return r.choice(["output %s = x => x + nosuch9" % nm, "%s = x => [y => y + nosuch8]\noutput %s" % (nm, nm),
                              "output %s = [1, x => x]" % nm])
+        if k in (25, 26):
+            # assignments in positions where they must NOT reach (or must be checked against) the
+            # enclosing scope: return position of a do-block, anonymous function bodies, branches
+            self.note("scoped-assign")
+            vs = [v for v in sc.all() if v != "inputs"]
+            tgt = r.choice(vs) if (vs and r.chance(1, 2)) else self.fresh(sc)
+            e = self.num(sc, 1)
+            return r.choice([
+                "do {\n  return %s = %s\n}" % (tgt, e),
+                "(() => %s = %s)()" % (tgt, e),
+                "(q5 => %s = q5)(%s)" % (tgt, e),
+                "(if %s then (() => %s = %s) else (() => 0))()" % (self.boolean(sc, 1), tgt, e),
+                "[1] via (q5 => %s = %s)" % (tgt, e),
+                "do {\n  w5 = %s\n  return do {\n    return %s = w5\n  }\n}" % (e, tgt),
+                "{k: (() => %s = %s)()}" % (tgt, e),
+                "(() => do {\n  return %s = %s\n})()" % (tgt, e),
+                "reduce([1], (a5, q5) => %s = q5, 0)" % tgt,
+            ])
+        if k == 27:
+            # nested assignment in assorted expression positions (binds in the CURRENT frame)
+            nm = self.fresh(sc)
+            self.note("nested-assign2")
+            e = self.num(sc2(sc, nm), 1)
+            s_ = r.choice(["abs(%s = %s)" % (nm, e), "{k: %s = %s}" % (nm, e), "(%s = %s) + 1" % (nm, e),
+                           "if true then %s = %s else 0" % (nm, e), "[0, 1][%s = 1]" % nm, "-(%s = %s)" % (nm, e)])
+            sc.vars[nm] = "num"
+            return s_
         if k == 22:
             self.note("comment")
             return "// " + r.choice(["note", "x = 1", ""])
